@@ -34,3 +34,41 @@ CLAIMED['C16'] = {
     'technique': CORR + ' + regenerated reporter tables',
 }
 NOT_CLAIMED = {}
+CLAIMED['C01'] = {
+    'text': 'proof: the Gallina model of _PartialExecutor / full_execution (three try-blocks, three cleanup policies, conf phase, SKIP, --act) '
+            'refines a declarative protocol specification for ALL instruction lists and ALL placements/kinds of failure '
+            '(C01_exec_refines_spec, C01_full_exec_refines_spec); corollaries: validation before main, fixed order and halt at first '
+            'failure, cleanup exactly once iff sandbox and told the previous phase, outcome names the earliest failure or a failing cleanup '
+            'step, never pass after a failure (all closed under the global context). Tie: ~4000 executions of full_execution.execute per quick '
+            'run with recording stub instructions: every step x position x failure kind, alone and combined with failing cleanup, plus random '
+            'multi-fault plans.',
+    'note': 'trusted: Coq kernel + vm_compute; hand-written model Model/Exec.v (checked against the running executor by correspondence, not verified); '
+            'instructions are stubs: what a real instruction does inside a step is outside this property; failure message contents and source '
+            'locations are not compared.',
+    'technique': CORR,
+}
+CLAIMED['C03'] = {
+    'text': 'proof (partial: scheduler and pipeline proved; per-instruction detection of defects tested): in the model a failure of any step of '
+            'the validation block (act parse, symbol validation, pre-sds validation of any instruction of any phase incl. the last of [cleanup]), '
+            'or of reading/preprocessing/parsing the whole file, leaves only validation events: no main step, no sandbox, no started action, and '
+            'the verdict is that step\'s (C03_invalid_no_effect_partial, C03_access_error_no_execution, C03_syntax_error_anywhere, '
+            'C03_symbol_command_no_execution; closed under the global context). Tie: ~660 real cases per quick run: one defective real instruction of '
+            'every class at every phase x position in a template with marker side effects in every phase, plus defects in [act]/[conf], missing '
+            'include, and the same through the symbol command; sandbox creation counted at the resolver.',
+    'note': 'PARTIAL: that each real instruction reports each class of defect in a validation step rather than in main is per-instruction Python '
+            'outside the model, covered by the differential run only. trusted: Coq kernel + vm_compute; Model/Exec.v + Model/World.v hand-written; /bin/sh.',
+    'technique': CORR,
+}
+CLAIMED['C04'] = {
+    'text': 'proof (partial: process bookkeeping proved; file-system facts observed): for every test case, ending, keep flag and placement of '
+            'directory-changing / environment-changing effects, the model of partial_execution.execute restores the current directory, never touches '
+            'os.environ (instructions get copies), creates at most one fresh sandbox iff execution gets past validation, removes it unless keep, and is '
+            'in act/ right after creation (C04_cwd_restored, C04_environ_untouched, C04_sandbox_fresh_and_removed_unless_keep, C04_starts_in_act, '
+            'C04_at_most_one_sandbox; closed under the global context). Tie: ~1200 stub executions (C01 fault plans x keep x chdir effects) and ~144 real '
+            'cases through MainProgram.execute (12 endings x keep x cd/env/read-only/tmp features) per quick run, observing cwd, os.environ, directories '
+            'left, reported path, layout, result/ files and contents, tmp/.',
+    'note': 'PARTIAL: rmtree on read-only trees, the layout made by construct_at, the contents of result/ and "tmp/ untouched" are file-system behaviour '
+            'outside the Gallina model: observed on real runs only. The checks run as root, so permission bits do not bind. An infrastructure exception '
+            '(mkdtemp/chdir failing) is outside the statement (no step ended the execution) and outside the model.',
+    'technique': CORR,
+}
